@@ -97,12 +97,19 @@ LaunchGhost(g, it) == IF IsUnl(g) THEN GNoBegin ELSE GBegin(g, it)
 TrySet(c) == IF exc = 0 THEN exc' = c /\ canceled' = TRUE ELSE UNCHANGED <<exc, canceled>>
 
 \* ------------------------------------------------------------------ tasks_.schedule(f)
-\* ConcurrentTaskSet::schedule either runs f() raw on the caller (InlineDepthGuard, no cancel check,
-\* no catch) when the set / the pool is loaded and the inline depth allows it, or wraps it
+\* ConcurrentTaskSet::schedule either runs f() raw on the caller (InlineDepthGuard, no catch) when the set / the pool is loaded and the inline depth allows it, or wraps it
 \* (packageTask: otc+1) and hands it to the pool.  The load conditions are over-approximated by a
 \* free choice.  s0 = the caller's stack after the call returns.
+\* Both inline branches of ConcurrentTaskSet::schedule test canceled() (the task-set level one always did,
+\* the pool-overload fallback since /repo fix 48e01d4): a cancelled set never starts f inline; on the
+\* overload path it DROPS f (destroyed without running: RunOrCleanup releases the item, the stage's
+\* outstanding_ / resource slot stay taken, wait() leaves through its hasException() exit).
 Submit(t, s0, g, it, fq) ==
-  \/ /\ cfg.inl /\ ~fq /\ depth[t] < cfg.maxd
+  \/ /\ cfg.inl /\ ~fq /\ depth[t] < cfg.maxd /\ canceled
+     /\ stk' = [stk EXCEPT ![t] = s0]
+     /\ GNoBegin
+     /\ UNCHANGED <<poolq, otc, depth>>
+  \/ /\ cfg.inl /\ ~fq /\ depth[t] < cfg.maxd /\ ~canceled
      /\ stk' = [stk EXCEPT ![t] = Append(s0, TaskFrame(g, it, FALSE))]
      /\ depth' = [depth EXCEPT ![t] = @ + 1]
      /\ LaunchGhost(g, it)
